@@ -47,7 +47,9 @@ func (r *ReferenceStorage) CheckAndSetReference(ref, old *plumbing.Reference) er
 		return err
 	}
 
-	if tmp.Hash() != old.Hash() {
+	// Symbolic references all have the zero hash: compare what they point to.
+	if tmp.Type() != old.Type() || tmp.Hash() != old.Hash() ||
+		(tmp.Type() == plumbing.SymbolicReference && tmp.Target() != old.Target()) {
 		return storage.ErrReferenceHasChanged
 	}
 
